@@ -579,7 +579,12 @@ impl Engine for ResEngine {
 
     // ---- DID list ----
     // Failure-prone entries are rarer so that all-success lists (the order-independence clause) dominate.
-    let list_len = ctx::choose(max_list + 1);
+    let list_len = if ctx::chance(1, 50) {
+      ctx::stat("probe.long_list");
+      20 + ctx::choose(30)
+    } else {
+      ctx::choose(max_list + 1)
+    };
     let failure_bias = ctx::choose(4); // 0: only resolvable DIDs
     let mut list: Vec<String> = Vec::new();
     let good: Vec<usize> = universe
@@ -645,7 +650,7 @@ impl Engine for ResEngine {
     if reattach {
       ctx::stat("probe.handlers_replaced_before_use");
     }
-    let resolver = if send_sync {
+    let mut resolver = if send_sync {
       let mut r: Resolver<CoreDocument> = Resolver::new();
       attach_all!(r, methods, with_iota, with_jwk, reattach);
       ResolverKind::SendSync(r)
@@ -923,6 +928,50 @@ impl Engine for ResEngine {
           ctx::trace(format!("multi-jwk over {} variants of one key", distinct_in.len()));
         }
       }
+    }
+    // ---- phase 4: a handler for a so far unsupported method is attached AFTER the resolver has been used ----
+    if ctx::choose(4) == 0 {
+      let late = "did:zzz:unsupported".to_owned();
+      macro_rules! attach_late {
+        ($r:ident) => {
+          $r.attach_handler("zzz".to_owned(), move |did: CoreDID| async move { handler_body("zzz".to_owned(), did.into_string()).await })
+        };
+      }
+      match &mut resolver {
+        ResolverKind::SendSync(r) => attach_late!(r),
+        ResolverKind::Single(r) => attach_late!(r),
+      }
+      ctx::stat("probe.handler_attached_after_use");
+      st(|s| {
+        s.open.clear();
+        s.parked.clear();
+        s.invocations.clear();
+        s.completions.clear();
+        s.plans.insert(late.clone(), Plan { stages: 0, ok: true, nonce: 4242 });
+      });
+      let did = CoreDID::parse(&late).unwrap();
+      let out: RefCell<Option<Result<CoreDocument, identity_resolver::Error>>> = RefCell::new(None);
+      let polls = match &resolver {
+        ResolverKind::SendSync(r) => drive(prop, "late", r.resolve(&did), &out, false),
+        ResolverKind::Single(r) => drive(prop, "late", r.resolve(&did), &out, false),
+      };
+      if polls.is_none() {
+        return;
+      }
+      let inv = st(|s| s.invocations.clone());
+      if inv != vec![("zzz".to_owned(), late.clone())] {
+        ctx::violation(prop, "C20.dispatch_exact_handler", "late/wrong-dispatch", format!("{late}: handler invocations {inv:?} after attaching a zzz handler"));
+      }
+      match out.into_inner().expect("root finished") {
+        Ok(doc) => check_doc(prop, "late", &late, &doc, &Expect::Doc(4242)),
+        Err(e) => ctx::violation(
+          prop,
+          "C20.result_is_handler_result",
+          "late/error",
+          format!("{late}: resolution failed after its handler was attached: {e}"),
+        ),
+      }
+      ctx::trace("late attach of zzz handler".to_owned());
     }
     if gated_in_flight >= 2 {
       ctx::mark_nontrivial();
